@@ -247,6 +247,7 @@ def feature(name):
 class C22:
     PROP = "C22"
     LEVEL = "exploration"
+    NO_PIN = True   # no baton threads here: let the OS scheduler place the workers
     TIERS = {
         "quick": {"runs": 60000, "budget_s": 45, "chunk": 200, "determinism_runs": 48},
         "thorough": {"runs": 2000000, "budget_s": 600, "chunk": 400, "determinism_runs": 256,
